@@ -84,3 +84,43 @@ Proof.
   - unfold get_tilejson. destruct (find_archive n w); cbn; try discriminate. destruct pub; cbn; [discriminate|reflexivity].
   - unfold get_metadata. destruct (find_archive n w); cbn; [reflexivity|discriminate].
 Qed.
+
+Theorem C12_head_same : forall w pub p c,
+  let g := serve_http w pub MGet p c in let hd := serve_http w pub MHead p c in
+  rs_status hd = rs_status g /\ rs_ctype hd = rs_ctype g /\ rs_cenc hd = rs_cenc g /\ rs_etag hd = rs_etag g /\ rs_body hd = BNone.
+Proof.
+  intros w pub p c. cbv zeta. unfold serve_http. destruct (rs_status (get w pub p) =? 200) eqn:E.
+  - apply N.eqb_eq in E. pose proof (get_200_etag w pub p E) as Het.
+    destruct c; cbn; repeat split; auto.
+  - repeat split; reflexivity.
+Qed.
+
+(* metadata endpoint: the archive's JSON metadata unchanged; TileJSON: bounds, center, zooms of the header and a
+   tiles template built from the public URL, the archive name and the tile-type extension *)
+Theorem C12_metadata_verbatim : forall w pub p name a, route_of p = RMetadata name -> find_archive name w = Some a ->
+  get w pub p = mkResp 200 (Some json_ct) None true (BBytes (a_meta a)).
+Proof. intros w pub p name a Hr Hf. unfold get. rewrite Hr. unfold get_metadata. rewrite Hf. reflexivity. Qed.
+Theorem C12_tilejson_fields : forall w pub p name a, pub <> [] -> route_of p = RTileJSON name -> find_archive name w = Some a ->
+  exists tj, get w pub p = mkResp 200 (Some json_ct) None true (BTileJSON tj) /\
+    tj_tiles tj = pub ++ [47] ++ name ++ bytes_of_string "/{z}/{x}/{y}" ++ header_ext (a_hdr a F_tile_type) /\
+    tj_minzoom tj = a_hdr a F_min_zoom /\ tj_maxzoom tj = a_hdr a F_max_zoom /\
+    tj_bounds tj = [a_hdr a F_min_lon; a_hdr a F_min_lat; a_hdr a F_max_lon; a_hdr a F_max_lat] /\
+    tj_center tj = [a_hdr a F_center_lon; a_hdr a F_center_lat; a_hdr a F_center_zoom].
+Proof.
+  intros w pub p name a Hp Hr Hf. unfold get. rewrite Hr. unfold get_tilejson. rewrite Hf.
+  destruct pub as [|c pub']; [congruence|]. eexists. split; [reflexivity|]. cbn. repeat split; reflexivity.
+Qed.
+
+Print Assumptions C12_tables.
+Print Assumptions C12_method_405.
+Print Assumptions C12_unknown_path_404.
+Print Assumptions C12_unknown_archive_404.
+Print Assumptions C12_zoom_404.
+Print Assumptions C12_ext_400.
+Print Assumptions C12_absent_204.
+Print Assumptions C12_tile_200.
+Print Assumptions C12_content_headers.
+Print Assumptions C12_conditional_304.
+Print Assumptions C12_head_same.
+Print Assumptions C12_metadata_verbatim.
+Print Assumptions C12_tilejson_fields.
